@@ -63,10 +63,12 @@ func c10PropPlace(t vpT, c c10PlaceCase) (nontrivial bool, classes []string) {
 	now := c.Now
 	cls := map[string]bool{}
 	sends := 0
+	queued := map[uint32]*aggregatorBucket{} // historic buckets seen since the last tick, by second
 	for si, st := range c.Steps {
 		switch st.Kind {
 		case "tick":
 			now += uint32(st.Advance)
+			queued = map[uint32]*aggregatorBucket{}
 			for _, ev := range m.Tick(now, nil, nil, 0) {
 				if ev.Stray != 0 {
 					t.Fatalf("step %d: bucket %d is not owned by replica %d but has %d contributors", si, ev.Time, c.Replica, ev.Stray)
@@ -150,6 +152,10 @@ func c10PropPlace(t vpT, c c10PlaceCase) (nontrivial bool, classes []string) {
 					if hb != call.Bucket {
 						t.Fatalf("%s: historic bucket is not historicBuckets[%d]", descr(), at)
 					}
+					if prev := queued[at]; prev != nil && prev != call.Bucket {
+						t.Fatalf("%s: a second historic bucket was created for second %d while the first one is still queued (its requests can no longer be reached)", descr(), at)
+					}
+					queued[at] = call.Bucket
 				}
 			} else {
 				if call.Longpoll || !call.IsDone() {
